@@ -128,7 +128,7 @@ CONFIG = {
         "assumptions": ["strsim scores are oracle rows", "WF as for C01"],
     },
     "C03": {
-        "lean_modules": ["Darling.Props.C03", "Darling.Props.C03Recv", "Darling.Props.C03Universe", "Darling.Props.C03Recv2"],
+        "lean_modules": ["Darling.Props.C03", "Darling.Props.C03Recv", "Darling.Props.C03Universe", "Darling.Props.C03Recv2", "Darling.Props.C03Spec"],
         "streams": [
             # error-algebra part: the same histories as C04, with spans compared
             {"name": "c04", "n": {"quick": 20000, "thorough": 400000},
@@ -214,7 +214,7 @@ CONFIG = {
         "partial": "wrapped members are covered for body entries (SpannedValue<..>, WithOriginal<.., syn::Field|Variant>) and generics (darling::Result<..>, WithOriginal<.., syn::Generics>), not for ident / vis / ty (darling offers no wrapper impls there); spans of plain magic members are not compared; the per-receiver wiring (which member gets which part) lives in the executable Env layer and is tied by the correspondence, the theorems cover the total functions it calls",
     },
     "C07": {
-        "lean_modules": ["Darling.Props.C07", "Darling.Props.C07Universe", "Darling.Props.C07Outer", "Darling.Props.C07Recv", "Darling.Props.C07OuterRun"],
+        "lean_modules": ["Darling.Props.C07", "Darling.Props.C07Universe", "Darling.Props.C07Outer", "Darling.Props.C07Recv", "Darling.Props.C07OuterRun", "Darling.Props.C07Spec"],
         "streams": [
             {"name": "c07o", "n": {"quick": 6000, "thorough": 120000}, "trivial": lambda case, ans: False},
             {"name": "c16m", "n": {"quick": 3000, "thorough": 60000}, "trivial": lambda case, ans: False},
@@ -277,7 +277,7 @@ CONFIG = {
         "assumptions": ["inner targets so far: bool, u8, i64, String, char, (), Flag (syntax-typed and derived inners are added with C13/C01)"],
     },
     "C13": {
-        "lean_modules": ["Darling.Props.C13"],
+        "lean_modules": ["Darling.Props.C13", "Darling.Props.C13Spec"],
         "streams": [
             {"name": "c13", "n": {"quick": 60000, "thorough": 60000},
              "trivial": lambda case, ans: False},
